@@ -20,6 +20,12 @@ RULE = ("each case = one object and a history of 1..8 set_phosphosites (single i
 
 
 def cases(rng, tier):
+    # duplicates of objects with built-up state: every way of copying x every kind of state
+    for l in core.copy_cases(rng, 2 if tier == "quick" else 12, ['getphos', 'phosseq', 'kappaphos']):
+        yield Case([l], {"kind": "duplicate-of-object"})
+    # objects handed back by moves / shuffles, and copy / deepcopy / pickle duplicates of objects with built-up state
+    for l in core.childq_cases(rng, 60 if tier == "quick" else 400, ['getphos', 'phosseq', 'kappaphos']):
+        yield Case([l], {"kind": "object-from-move-or-copy"})
     for c in shared_child_cases(rng, tier):
         yield c
     n = 120 if tier == "quick" else 1200
@@ -79,6 +85,11 @@ def expected_sites(seq, hist_prefix):
 
 
 def judge(case, reals, gens, specs):
+    if case.block and case.block[0].startswith("childq "):
+        if reals[0][0] != "childq":
+            return [("violation", 0, "%s -> %s" % (case.block[0], str(reals[0])[:300]))]
+        ok_c, why = core.judge_childq(reals[0])
+        return [] if ok_c else [("violation", 0, why)]
     out = []
     for i, (r, g, s) in enumerate(zip(reals, gens, specs)):
         if r[0] == "skip":
